@@ -499,10 +499,12 @@ func concurrent(t *testing.T, r *ev.Run) {
 		b := mk()
 		base := time.Now()
 		for h := 0; h < nHist; h++ {
+			// every client keeps its own operations until it has finished: a shared, locked log would order the clients
+			// and hide unsynchronised accesses inside the metastore implementation from the race detector
 			var (
-				mu  sync.Mutex
-				ops []porcupine.Operation
-				wg  sync.WaitGroup
+				ops    []porcupine.Operation
+				perCli [8][]porcupine.Operation
+				wg     sync.WaitGroup
 			)
 			ns := fmt.Sprintf("c%d-", h)
 			for c := 0; c < 8; c++ {
@@ -538,13 +540,14 @@ func concurrent(t *testing.T, r *ev.Run) {
 							}
 						}
 						ret := time.Since(base).Nanoseconds()
-						mu.Lock()
-						ops = append(ops, porcupine.Operation{ClientId: c, Input: in, Call: call, Output: out, Return: ret})
-						mu.Unlock()
+						perCli[c] = append(perCli[c], porcupine.Operation{ClientId: c, Input: in, Call: call, Output: out, Return: ret})
 					}
 				}()
 			}
 			wg.Wait()
+			for c := range perCli {
+				ops = append(ops, perCli[c]...)
+			}
 			res, info := porcupine.CheckOperationsVerbose(linModel, ops, 30*time.Second)
 			r.Eval(1)
 			r.Count("concurrent_histories", 1)
